@@ -1,7 +1,7 @@
 (** SimpProofs.v — soundness of the simplifier model Simp.v (C05): every rewrite preserves width and value.
     Part 1: algebra of the n-ary operators modulo 2^w, permutations (canonize), flattening. *)
 From Coq Require Import ZArith List Bool String Lia Permutation.
-From Mx Require Import ModInt ModIntProofs Expr ExprProofs Simp SliceLemmas ComposeProofs.
+From Mx Require Import ModInt ModIntProofs Expr ExprProofs Simp SliceLemmas RotLemmas ComposeProofs.
 Import ListNotations.
 Open Scope list_scope.
 Open Scope Z_scope.
@@ -110,12 +110,16 @@ Qed.
 
 (** * Part 2: well-formed trees (fragments 1 and 2: constants, identifiers, memory cells, conditionals, the five associative operators,
     minus, and slices; every width is at most 64) and the one-step soundness of _expr_simp on them *)
-Definition frag_op (op : string) : bool := match opk_of op with OAdd | OMul | OXor | OAnd | OOr | OSub | OShl | OShr | OSar | OEq | OParity => true | _ => false end.
+Definition frag_op (op : string) : bool := match opk_of op with OAdd | OMul | OXor | OAnd | OOr | OSub | OShl | OShr | OSar | ORol | ORor | OEq | OParity => true | _ => false end.
 Definition is_shift (op : string) : bool := match opk_of op with OShl | OShr | OSar => true | _ => false end.
 Definition same_size (n : Z) (args : list expr) : bool := forallb (fun a => size a =? n) args.
-(** operands: one width for + * ^ & | - == parity (two operands for ==, one for parity); a value and a count (any widths) for the shifts *)
+(** operands: one width for + * ^ & | - == parity (two operands for ==, one for parity); a value and a count (any widths) for the shifts; a value and an 8-bit count for the rotations *)
+(** rotations: a value of width 8, 16, 32 or 64 and an 8-bit count (what the lifter produces: cl or an imm8) *)
+Definition rot_args_ok (n : Z) (args : list expr) : bool :=
+  match args with [_; c] => (size c =? 8) && ((n =? 8) || (n =? 16) || (n =? 32) || (n =? 64)) | _ => false end.
+Definition is_sr (op : string) : bool := is_shift op || is_rot op.
 Definition args_ok (op : string) (n : Z) (args : list expr) : bool :=
-  if is_shift op then Nat.eqb (List.length args) 2 else same_size n args.
+  if is_shift op then Nat.eqb (List.length args) 2 else if is_rot op then rot_args_ok n args else same_size n args.
 Definition op_ok (op : string) (args : list expr) : bool :=
   match args with
   | [] => false
@@ -185,8 +189,8 @@ Section Sound.
     unfold op_ok. destruct args as [|a r]; [discriminate|]. intros H.
     apply andb_true_iff in H as [H _]. apply andb_true_iff in H as [F S]. exists a, r. auto.
   Qed.
-  Lemma args_ok_noshift op n args : is_shift op = false -> args_ok op n args = same_size n args.
-  Proof. intros H. unfold args_ok. rewrite H. reflexivity. Qed.
+  Lemma args_ok_noshift op n args : is_sr op = false -> args_ok op n args = same_size n args.
+  Proof. unfold is_sr. intros H. apply orb_false_iff in H as [H1 H2]. unfold args_ok. rewrite H1, H2. reflexivity. Qed.
 
   (** width is positive and the value is in range *)
   (** ** what well-formedness says about a concatenation *)
@@ -295,9 +299,9 @@ Section Sound.
   Lemma aop_not_sub op k : aop_of op = Some k -> opk_of op <> OSub.
   Proof. unfold aop_of. destruct (opk_of op); try discriminate; congruence. Qed.
 
-  Lemma aop_noshift op k : aop_of op = Some k -> is_shift op = false.
-  Proof. unfold aop_of, is_shift. destruct (opk_of op); try discriminate; reflexivity. Qed.
-  Lemma wf_op_inv op args : wf (EOp op args) = true -> is_shift op = false ->
+  Lemma aop_noshift op k : aop_of op = Some k -> is_sr op = false.
+  Proof. unfold aop_of, is_sr, is_shift, is_rot. destruct (opk_of op); try discriminate; reflexivity. Qed.
+  Lemma wf_op_inv op args : wf (EOp op args) = true -> is_sr op = false ->
     all_wf args /\ exists a r, args = a :: r /\ frag_op op = true /\ all_size (size a) args.
   Proof.
     simpl. intros H NS. apply andb_true_iff in H as [W O]. split; [apply forallb_Forall; assumption|].
@@ -990,7 +994,7 @@ Section Sound.
   Proof.
     intros Ek W H. pose proof W as W'. simpl in W'. apply andb_true_iff in W' as [Wl O]. unfold op_ok in O. destruct eargs as [|a0 r]; [discriminate|].
     rewrite Ek in O. apply andb_true_iff in O as [O Ln]. apply andb_true_iff in O as [_ Ao]. destruct r as [|a1 [|? ?]]; try discriminate.
-    rewrite (args_ok_noshift op) in Ao by (unfold is_shift; rewrite Ek; reflexivity). apply same_size_all in Ao.
+    rewrite (args_ok_noshift op) in Ao by (unfold is_sr, is_shift, is_rot; rewrite Ek; reflexivity). apply same_size_all in Ao.
     inversion Ao as [|? ? _ Ao1]; subst. inversion Ao1 as [|? ? S1 _]; subst.
     apply forallb_Forall in Wl. inversion Wl as [|? ? W0 Wl1]; subst. inversion Wl1 as [|? ? W1 _]; subst.
     destruct (wf_range a0 W0) as [P0 R0]. destruct (wf_range a1 W1) as [P1 R1]. pose proof (wf_size_le a0 W0) as Sle.
@@ -1037,6 +1041,141 @@ Section Sound.
       assert (Z0 : wrap w1 0 = 0) by (unfold wrap; apply Z.mod_0_l; apply Z.pow_nonzero; lia). 
       destruct (Z.eqb_spec (ev (EOp "|" (y0 :: EInt sgm wm vm :: t))) 0) as [Q|Q]; [contradiction|].
       unfold wrap. symmetry. apply Z.mod_0_l. apply Z.pow_nonzero; lia.
+  Qed.
+
+  (** ** rotations: count 0, count = width, and two rotations in a row *)
+  Definition rot_pipeline (op : string) (a c : expr) : res expr :=
+    let args1 := if is_int_val c 0 then [a] else [a; c] in
+    match args1 with
+    | [x] => Ok x
+    | a0 :: a1 :: rest =>
+        if is_int a1 && is_int_val a1 (size a0) then Ok a0 else
+        match a0 with
+        | EOp op2 (x :: c2 :: _) =>
+            if is_rot op2 then
+              if (op =? op2)%string then Ok (EOp op [x; EOp "+" [c2; a1]])
+              else Ok (EOp op2 [x; EOp "+" [c2; neg a1]])
+            else Ok (EOp op args1)
+        | EOp op2 _ => if is_rot op2 then Err EIndexError else Ok (EOp op args1)
+        | _ => Ok (EOp op args1)
+        end
+    | [] => Err EIndexError
+    end.
+  Lemma simp_rot_unfold op a c : is_rot op = true -> simp_op op [a; c] = rot_pipeline op a c.
+  Proof.
+    unfold is_rot. intros S. unfold simp_op, rot_pipeline.
+    destruct (opk_of op) eqn:Ek; try discriminate;
+      (rewrite (flatten_nonassoc op) by (unfold is_assoc; rewrite Ek; reflexivity));
+      unfold is_assoc; rewrite Ek; cbv zeta; cbn [bind rev app List.length]; unfold last_opt; cbn [rev app andb];
+      change (1 <? Z.of_nat 2) with true; cbn [andb];
+      (destruct (is_int_val c 0); cbn [removelast List.length Nat.eqb negb];
+       [reflexivity | rewrite (dedup_outer_plain op) by (unfold is_plain; rewrite Ek; reflexivity); cbn [bind]; reflexivity]).
+  Qed.
+
+  Lemma ev_rot op a c : is_rot op = true -> 0 < size a -> 0 <= ev a < 2 ^ size a ->
+    ev (EOp op [a; c]) = match opk_of op with ORol => rol (size a) (ev a) (ev c) | _ => ror (size a) (ev a) (ev c) end.
+  Proof.
+    intros S Pa Ra. rewrite eval_op_node, size_node by lia. cbn [map]. unfold eval_op, is_rot in *.
+    destruct (opk_of op); try discriminate; replace (size a =? 0) with false by (symmetry; apply Z.eqb_neq; lia); rewrite (wrap_small (size a) (ev a) Ra); reflexivity.
+  Qed.
+  Lemma std8_divides n : (n =? 8) || (n =? 16) || (n =? 32) || (n =? 64) = true -> 0 < n /\ (n | 2 ^ 8).
+  Proof.
+    intros H. apply orb_true_iff in H as [H|H]; [apply orb_true_iff in H as [H|H]; [apply orb_true_iff in H as [H|H]|]|]; apply Z.eqb_eq in H; subst n; (split; [lia|]).
+    - exists 32. reflexivity.
+    - exists 16. reflexivity.
+    - exists 8. reflexivity.
+    - exists 4. reflexivity.
+  Qed.
+
+  Lemma sum8_wf c2 d : wf c2 = true -> wf d = true -> size c2 = 8 -> size d = 8 ->
+    wf (EOp "+" [c2; d]) = true /\ size (EOp "+" [c2; d]) = 8 /\ ev (EOp "+" [c2; d]) = wrap 8 (ev c2 + ev d).
+  Proof.
+    intros Wc2 Wd Sc2 Sd. split; [|split].
+    - change (wf (EOp "+" [c2; d])) with (forallb wf [c2; d] && op_ok "+" [c2; d]). cbn [forallb]. rewrite Wc2, Wd. cbn [andb].
+      unfold op_ok. rewrite (args_ok_noshift "+" _ _ eq_refl). change (frag_op "+") with true. change (opk_of "+") with OAdd. cbn [andb same_size forallb]. rewrite Z.eqb_refl, Sc2, Sd. reflexivity.
+    - rewrite size_node by lia. exact Sc2.
+    - rewrite (ev_assoc "+" AAdd c2 [d] eq_refl) by lia. rewrite Sc2. cbn [map]. rewrite !afold_cons. change (afold AAdd []) with 0. cbn [af]. rewrite Z.add_0_r. reflexivity.
+  Qed.
+  Lemma neg8_wf c : wf c = true -> size c = 8 -> wf (neg c) = true /\ size (neg c) = 8 /\ ev (neg c) = wrap 8 (- ev c).
+  Proof.
+    intros Wc Sc. split; [|split].
+    - unfold neg. change (wf (EOp "-" [c])) with (forallb wf [c] && op_ok "-" [c]). cbn [forallb]. rewrite Wc. cbn [andb].
+      unfold op_ok. rewrite (args_ok_noshift "-" _ _ eq_refl). change (frag_op "-") with true. change (opk_of "-") with OSub. cbn [andb same_size forallb List.length Nat.leb]. rewrite Z.eqb_refl. reflexivity.
+    - unfold neg. rewrite size_node by lia. exact Sc.
+    - unfold neg. rewrite ev_neg by lia. rewrite Sc. reflexivity.
+  Qed.
+  Lemma rot_node_good opr x cnt e0 : is_rot opr = true -> wf x = true -> wf cnt = true -> size cnt = 8 ->
+    ((size x =? 8) || (size x =? 16) || (size x =? 32) || (size x =? 64)) = true -> size e0 = size x ->
+    ev e0 = (match opk_of opr with ORol => rol (size x) (ev x) (ev cnt) | _ => ror (size x) (ev x) (ev cnt) end) ->
+    good e0 (EOp opr [x; cnt]).
+  Proof.
+    intros Sr Wx Wcnt Scnt Std Se Ee. destruct (wf_range x Wx) as [Px Rx].
+    assert (NShr : is_shift opr = false) by (unfold is_rot in Sr; unfold is_shift; destruct (opk_of opr); try discriminate; reflexivity).
+    split; [|split].
+    - change (wf (EOp opr [x; cnt])) with (forallb wf [x; cnt] && op_ok opr [x; cnt]). cbn [forallb]. rewrite Wx, Wcnt. cbn [andb].
+      unfold op_ok, args_ok. rewrite NShr, Sr. unfold rot_args_ok. rewrite Scnt, Z.eqb_refl. cbn [andb]. rewrite Std.
+      assert (Fr : frag_op opr = true) by (unfold is_rot in Sr; unfold frag_op; destruct (opk_of opr); try discriminate; reflexivity). rewrite Fr.
+      unfold is_rot in Sr. destruct (opk_of opr); try discriminate; reflexivity.
+    - rewrite size_node by lia. symmetry. exact Se.
+    - rewrite Ee. rewrite (ev_rot opr x cnt Sr Px Rx). reflexivity.
+  Qed.
+  Lemma rot_same_kind op op2 k : opk_of op = k -> opk_of op2 = k -> (k = ORol \/ k = ORor) -> op = op2.
+  Proof.
+    intros E1 E2 K. unfold opk_of in *.
+    repeat match type of E1 with context [(?s =? ?t)%string] => destruct (String.eqb_spec s t) as [->|?]; try (destruct K; congruence) end;
+    repeat match type of E2 with context [(?s =? ?t)%string] => destruct (String.eqb_spec s t) as [->|?]; try (destruct K; congruence) end; try reflexivity; destruct K; congruence.
+  Qed.
+
+  Theorem simp_op_rot op eargs e' : is_rot op = true -> wf (EOp op eargs) = true -> simp_op op eargs = Ok e' -> good (EOp op eargs) e'.
+  Proof.
+    intros S W H. pose proof W as W'. simpl in W'. apply andb_true_iff in W' as [Wl O]. destruct (op_ok_inv _ _ O) as (a & r & -> & _ & Ao).
+    assert (NSh : is_shift op = false) by (unfold is_rot in S; unfold is_shift; destruct (opk_of op); try discriminate; reflexivity).
+    unfold args_ok in Ao. rewrite NSh, S in Ao. unfold rot_args_ok in Ao. destruct r as [|c [|? ?]]; try discriminate.
+    apply andb_true_iff in Ao as [Sc Std]. apply Z.eqb_eq in Sc. destruct (std8_divides _ Std) as [Pn Dv].
+    apply forallb_Forall in Wl. inversion Wl as [|? ? Wa Wl']; inversion Wl' as [|? ? Wc _]; subst.
+    destruct (wf_range a Wa) as [Pa Ra]. destruct (wf_range c Wc) as [Pc Rc].
+    rewrite (simp_rot_unfold op a c S) in H. unfold rot_pipeline in H.
+    assert (Keep : good (EOp op [a; c]) (EOp op [a; c])) by (apply good_refl; exact W).
+    assert (Sz : size (EOp op [a; c]) = size a) by (apply size_node; lia).
+    pose proof (ev_rot op a c S Pa Ra) as Ev.
+    assert (Id : forall k, k mod size a = 0 -> ev c = k -> good (EOp op [a; c]) a).
+    { intros k K0 Ek. split; [exact Wa|]. split; [symmetry; exact Sz|]. rewrite Ev, Ek. unfold is_rot in S.
+      destruct (opk_of op); try discriminate; [rewrite <- (rol_mod (size a) (ev a) k Pa), K0; symmetry; apply rol_0 | rewrite <- (ror_mod (size a) (ev a) k Pa), K0; symmetry; apply ror_0]; assumption. }
+    destruct (is_int_val c 0) eqn:Z0.
+    { inversion H; subst e'. destruct c; try discriminate. simpl in Z0. apply Z.eqb_eq in Z0. subst. destruct (wf_int_inv _ _ _ Wc) as (_ & _ & _ & E0).
+      apply (Id 0); [apply Z.mod_0_l; lia | exact E0]. }
+    destruct (is_int c && is_int_val c (size a)) eqn:Full.
+    { inversion H; subst e'. apply andb_true_iff in Full as [_ F2]. destruct c; try discriminate. simpl in F2. apply Z.eqb_eq in F2. subst. destruct (wf_int_inv _ _ _ Wc) as (_ & _ & _ & E0).
+      apply (Id (size a)); [apply Z.mod_same; lia | exact E0]. }
+    destruct a as [| | |op2 ys| | | |]; try (inversion H; subst e'; exact Keep).
+    destruct ys as [|x [|c2 t]]; try (destruct (is_rot op2); [discriminate | inversion H; subst e'; exact Keep]).
+    destruct (is_rot op2) eqn:S2; [|inversion H; subst e'; exact Keep].
+    (* the inner rotation is well formed: a value and an 8-bit count *)
+    pose proof Wa as Wa'. change (wf (EOp op2 (x :: c2 :: t))) with (forallb wf (x :: c2 :: t) && op_ok op2 (x :: c2 :: t)) in Wa'. apply andb_true_iff in Wa' as [Wys O2]. destruct (op_ok_inv _ _ O2) as (x0 & r0 & E0 & _ & Ao2). inversion E0; subst x0 r0. clear E0.
+    assert (NSh2 : is_shift op2 = false) by (unfold is_rot in S2; unfold is_shift; destruct (opk_of op2); try discriminate; reflexivity).
+    unfold args_ok in Ao2. rewrite NSh2, S2 in Ao2. unfold rot_args_ok in Ao2. destruct t as [|? ?]; [|discriminate].
+    apply andb_true_iff in Ao2 as [Sc2 _]. apply Z.eqb_eq in Sc2.
+    apply forallb_Forall in Wys. inversion Wys as [|? ? Wx Wys']; inversion Wys' as [|? ? Wc2 _]; subst.
+    destruct (wf_range x Wx) as [Px Rx]. destruct (wf_range c2 Wc2) as [Pc2 Rc2].
+    assert (Sx : size (EOp op2 [x; c2]) = size x) by (apply size_node; apply Z.neq_sym, Z.lt_neq; exact Px).
+    pose proof (ev_rot op2 x c2 S2 Px Rx) as Ev2.
+    rewrite Sx in *.
+    destruct (op =? op2)%string eqn:Eop.
+    - apply String.eqb_eq in Eop. subst op2. inversion H; subst e'. destruct (sum8_wf c2 c Wc2 Wc Sc2 Sc) as (Ws & Ss & Es).
+      apply (rot_node_good op x (EOp "+" [c2; c]) _ S Wx Ws Ss Std Sz).
+      rewrite Ev, Ev2, Es. unfold is_rot in S. destruct (opk_of op); try discriminate.
+      + rewrite rol_rol by assumption. apply rol_cong; [exact Pn|]. symmetry. apply count_sum_mod; [exact Pn | exact Dv].
+      + rewrite ror_ror by assumption. apply ror_cong; [exact Pn|]. symmetry. apply count_sum_mod; [exact Pn | exact Dv].
+    - inversion H; subst e'. destruct (neg8_wf c Wc Sc) as (Wn & Sn & En). destruct (sum8_wf c2 (neg c) Wc2 Wn Sc2 Sn) as (Ws & Ss & Es).
+      apply (rot_node_good op2 x (EOp "+" [c2; neg c]) _ S2 Wx Ws Ss Std Sz).
+      rewrite Ev, Ev2, Es, En. unfold is_rot in S, S2.
+      assert (Cg : (wrap 8 (ev c2 + wrap 8 (- ev c))) mod size x = (ev c2 - ev c) mod size x) by (apply count_diff_mod; [exact Pn | exact Dv]).
+      apply String.eqb_neq in Eop.
+      destruct (opk_of op) eqn:Ek; try discriminate; destruct (opk_of op2) eqn:Ek2; try discriminate.
+      + exfalso. apply Eop. apply (rot_same_kind op op2 ORol Ek Ek2). left; reflexivity.
+      + rewrite rol_ror by assumption. apply ror_cong; [exact Pn | symmetry; exact Cg].
+      + rewrite ror_rol by assumption. apply rol_cong; [exact Pn | symmetry; exact Cg].
+      + exfalso. apply Eop. apply (rot_same_kind op op2 ORor Ek Ek2). right; reflexivity.
   Qed.
 
   (** ** one step of _expr_simp *)
@@ -1191,6 +1330,7 @@ Section Sound.
       destruct (op_ok_inv _ _ O) as (a & r & _ & F & _). unfold frag_op in F.
       destruct (opk_of op) eqn:Ek; try discriminate;
         first [ apply (simp_op_shift op args e'); [unfold is_shift; rewrite Ek; reflexivity | exact W | exact H]
+              | apply (simp_op_rot op args e'); [unfold is_rot; rewrite Ek; reflexivity | exact W | exact H]
               | apply (simp_op_eq op args e' Ek W H)
               | apply (simp_op_parity op args e' Ek W H)
               | apply osub_is_minus in Ek; subst op; apply simp_op_sub; assumption
@@ -1218,6 +1358,13 @@ Section Sound.
     inversion E as [[E1 E2]]. rewrite E1, (IH l' E2). reflexivity.
   Qed.
 
+  Lemma args_ok_sizes op n l l' : map size l' = map size l -> args_ok op n l' = args_ok op n l.
+  Proof.
+    intros E. assert (Ln : List.length l' = List.length l) by (rewrite <- (map_length size l'), E, map_length; reflexivity).
+    unfold args_ok. rewrite Ln, (same_size_map n l l' E). destruct (is_shift op); [reflexivity|]. destruct (is_rot op); [|reflexivity].
+    unfold rot_args_ok. destruct l as [|a [|c [|? ?]]], l' as [|a' [|c' [|? ?]]]; try discriminate; try reflexivity. simpl in E. inversion E as [[E1 E2]]. rewrite E2. reflexivity.
+  Qed.
+
   Lemma node_good op args args' : wf (EOp op args) = true -> Forall2 good args args' -> good (EOp op args) (EOp op args').
   Proof.
     intros W F. pose proof W as W'. simpl in W'. apply andb_true_iff in W' as [Wl O]. apply forallb_Forall in Wl.
@@ -1229,9 +1376,7 @@ Section Sound.
     inversion Sz as [[Sa Sr]].
     split; [|split].
     - change (wf (EOp op (a' :: r'))) with (forallb wf (a' :: r') && op_ok op (a' :: r')). apply andb_true_iff. split; [apply forallb_Forall; exact A|].
-      unfold op_ok, args_ok in *. rewrite Sa. rewrite Ln.
-      assert (SS : same_size (size a) (a' :: r') = same_size (size a) (a :: r)) by (apply same_size_map; exact Sz).
-      rewrite SS. exact O.
+      unfold op_ok in *. rewrite Sa. rewrite Ln. rewrite (args_ok_sizes op (size a) (a :: r) (a' :: r') Sz). exact O.
     - simpl. rewrite Sa. destruct (size a =? 0); [|reflexivity]. destruct r, r'; simpl in *; try discriminate; congruence.
     - rewrite !eval_op_node. rewrite Ev. f_equal. simpl. rewrite Sa. destruct (size a =? 0); [|reflexivity]. destruct r, r'; simpl in *; try discriminate; congruence.
   Qed.
